@@ -684,7 +684,11 @@ class Interp:
         ):
             # python scalar division: ZeroDivisionError when the divisor is 0 (python ints/floats; numpy
             # scalars -- results of np.* functions, tagged meta == "numpy" -- give inf/nan instead)
-            if not (getattr(b, "meta", None) == "numpy" or getattr(a, "meta", None) == "numpy"):
+            def _npscalar(x):
+                m = getattr(x, "meta", None)
+                return m == "numpy" or (isinstance(m, tuple) and m and m[0] in ("sum", "mean", "min", "max", "stat"))
+
+            if not (_npscalar(a) or _npscalar(b)):
                 if self.ctx.branch(V(b.t == 0), f"divzero@{e.lineno}"):
                     raise SymRaise(ExcVal("ZeroDivisionError", ("division by zero",), ("ArithmeticError",)))
         if hasattr(a, "pyvc_binop"):
